@@ -307,7 +307,12 @@ fn oracle_streamfault(spec: &str, sched: &str, ops: &str, file: &[u8]) -> V {
     }
     let cparts: Vec<&str> = clean.reply.split(';').collect();
     let fparts: Vec<&str> = faulty.reply.split(';').collect();
-    let hard = crate::stream::split_init_pos(sched).1.split(',').any(|t| t == "f" || t == "e");
+    let hard = crate::stream::split_init_pos(sched).1.split(',').any(|t| t.starts_with('f') || t == "e");
+    // "that call returns an error": an operation during which a seek/read failed (any error kind but Interrupted) or hit a
+    // premature end of stream must not report success
+    if let Some(m) = &faulty.ok_despite_failed_io {
+        return Err(format!("C17: {}", m));
+    }
     if !fparts[0].starts_with("open=ok") {
         // open failed: legitimate only if a hard fault was injected or the clean open fails the same way
         if !hard && fparts[0] != cparts[0] {
